@@ -120,6 +120,15 @@ check("C02", "TLC check of the observed identifier table and allocator (IdentTab
       "DESIGN.md §4.5, §6 C02")
 
 
+check("C12", "TLC check of JsString (reader automaton, round trip with observed encoder forms) + escape table evaluated back + per-context replay",
+      "TLC checks Decode(Encode(s)) = s on JavaScript's string-literal reader (sloppy and strict) for every class string "
+      "up to length 2-3 with the encoder forms observed from the real gen_lit_str; the real encoder's literal for every "
+      "Unicode scalar (thorough) or a boundary-rich sample (quick) followed by 9 critical successors is evaluated back "
+      "by node in both modes; 35 class representatives in raw / entity / escape spellings are placed at 16 embedding "
+      "sites, compiled and executed, and the string reaching the runtime must be the denoted code points.",
+      "DESIGN.md §4.5, §6 C12")
+
+
 def main():
     props = [json.loads(l) for l in open(os.path.join(HERE, "properties.jsonl"))]
     ids = [p["id"] for p in props]
